@@ -188,6 +188,7 @@ def rule_pairing(facts, rep):
     def pairs_in(b):
         """getter → prefix used in color_name for the value obtained from that getter."""
         out = {}
+        RES = hir.Resolver(b["hir"])
         for n in hir.walk(b["hir"]):
             # style.get_X().map(|c| color_name(PREFIX, c))
             if hir.is_call(n, "Option::<T>::map") and hir.is_call(hir.simp(n["args"][0]), "anstyle::style::Style::get_fg_color", "anstyle::style::Style::get_bg_color", "anstyle::style::Style::get_underline_color"):
@@ -200,7 +201,7 @@ def rule_pairing(facts, rep):
             # if let Some(color) = style.get_X() { colors.insert(color_name(PREFIX, color), rgb_value(color, palette)) }
             if n.get("k") == "if" and hir.simp(n["c"]).get("k") == "letexpr":
                 le = hir.simp(n["c"])
-                init = hir.simp(le["init"])
+                init = hir.simp(RES.res(hir.simp(le["init"])))          # (the getter's result may sit in a temporary first)
                 if init.get("k") == "call" and hir.callee(init).startswith("anstyle::style::Style::get_"):
                     g = hir.callee(init).split("::")[-1]
                     var = le["pat"]["pats"][0].get("name")
